@@ -18,3 +18,11 @@ package types
 
 //@ contract (Timeout).IsValid
 //@   ensures result == !(t.Height.RevisionNumber == 0 && t.Height.RevisionHeight == 0 && t.Timestamp == 0)
+
+//@ contract CommitPacket
+//@   ensures layout: result == sha256(be64(packet.TimeoutTimestamp) + be64(packet.TimeoutHeight.RevisionNumber) + be64(packet.TimeoutHeight.RevisionHeight) + sha256(packet.Data))
+//@   ensures preimage_len: len(be64(packet.TimeoutTimestamp) + be64(packet.TimeoutHeight.RevisionNumber) + be64(packet.TimeoutHeight.RevisionHeight) + sha256(packet.Data)) == 56
+//@   ensures len(result) == 32 && result != nil
+
+//@ contract CommitAcknowledgement
+//@   ensures result == sha256(data)
